@@ -123,9 +123,10 @@ func (i *Interpreter) evaluateAsyncExpr(expr AsyncExpr, env *Environment) (inter
 	// Create a new Future to represent the pending result
 	future := NewFuture()
 
-	// Create a child environment for the async block
-	// This captures the current scope for use in the goroutine
-	asyncEnv := NewChildEnvironment(env)
+	// Create a child environment for the async block. It captures the current
+	// scope for use in the goroutine, with private copies of the objects and
+	// arrays in it (see newAsyncScope).
+	asyncEnv := newAsyncScope(env)
 
 	// Execute the async block in a separate goroutine
 	go func() {
@@ -176,8 +177,14 @@ func (i *Interpreter) evaluateAwaitExpr(expr AwaitExpr, env *Environment) (inter
 		return nil, fmt.Errorf("await requires a Future, got %T", val)
 	}
 
-	// Wait for the Future to complete and return its value
-	return future.Await()
+	// Wait for the Future to complete and return its value. Every awaiter gets
+	// its own copy of an object or array result: several goroutines may await
+	// the same Future and go on to assign to fields of what they received.
+	result, err := future.Await()
+	if err != nil {
+		return nil, err
+	}
+	return deepCopyValue(result), nil
 }
 
 // evaluateArrayIndexExpr evaluates array indexing: array[index]
